@@ -331,6 +331,16 @@ func (g G) drawSSO(label string, w *WorldCfg, sp int) *MsgSpec {
 		m.RelayState = g.text(label+".relayv", "relay", false)
 	}
 	m.DestMode = g.pick(label+".dest", "advertised", "advertised", "absent")
+	if g.chance(label+".protobind", 35) && len(c.ACS) > 0 {
+		a := c.ACS[g.intn(label+".pbacs", len(c.ACS))]
+		m.ProtoBind = a.Binding
+		switch g.intn(label+".acsref", 3) {
+		case 1:
+			m.ACSURL = a.URL
+		case 2:
+			m.ProtoBind, m.ACSIndex = "", a.Index
+		}
+	}
 	if g.chance(label+".window", 40) {
 		m.HasNotBefore, m.NotBeforeNs = true, -int64(g.rng(label+".nb", 0, 300))*int64(time.Second)
 		m.HasNotOnOrAfter, m.NotOnOrAfterNs = true, int64(g.rng(label+".nooa", 1, 600))*int64(time.Second)
@@ -440,6 +450,10 @@ func drawPlan(t *rapid.T, prop, family string) *Plan {
 		p = g.planC08()
 	case "C10":
 		p = g.planC10()
+	case "C05", "C06":
+		p = g.planSSO(prop)
+	case "C07":
+		p = g.planC07()
 	case "C03", "C04":
 		p = g.planFlows(prop)
 	default:
